@@ -10,12 +10,13 @@ UNARY = dict(exp=np.exp, expm1=np.expm1, sin=np.sin, cos=np.cos, tan=np.tan, sin
              log1p=np.log1p, log=np.log, sqrt=np.sqrt)
 
 
-def make_fun(prog, c, a):
-    """f(x) for the program in the local variable u = c*(x - a)"""
+def make_fun(prog, c, a, powop=False, p=0.0):
+    """f(x) for the program in the local variable u = c*(x - a) + p; powop: integer powers are written with the
+    power operator (u**2, u**3) instead of as products; p: inner base value (0 for the specification's own programs)"""
     c = float(c)
 
     def f(x):
-        u = (x - a) * c
+        u = (x - a) * c + p if p else (x - a) * c
         A, B = u, None
         for op in prog[1:]:
             if op in UNARY:
@@ -25,9 +26,9 @@ def make_fun(prog, c, a):
             elif op == 'powm12':
                 A = A ** -0.5
             elif op == 'ipow2':
-                A = A * A
+                A = A ** 2 if powop else A * A
             elif op == 'ipow3':
-                A = A * A * A
+                A = A ** 3 if powop else A * A * A
             elif op == 'add1':
                 A = A + 1.0
             elif op == 'sub_half':
